@@ -273,10 +273,35 @@ def law_grid(ctx, drv):
                         return
 
 
+def law_grid_fractional(ctx):
+    """the same laws for fractional CPU allocations (1.5, 2.5, 3.75 ... CPUs are legal).  The Lean model counts CPUs in whole numbers, so this part is a
+    test against the documented formulas evaluated in floating point, away from tick boundaries -- a search for failing inputs, not part of the tie"""
+    import math
+    from eudoxia.workload.pipeline import Segment
+    doc = {"const": lambda c: 1.0, "log": lambda c: math.log(c) + 1, "sqrt": lambda c: math.sqrt(c), "linear3": lambda c: c if c < 3 else 3.0,
+           "linear7": lambda c: c if c < 7 else 7.0, "squared": lambda c: c * c, "exp": lambda c: 2.0 ** c if c < 4 else 16.0}
+    for tps in (1, 16, 1000):
+        for law in LAWS:
+            for c in (0.5, 0.75, 1.25, 1.5, 2.5, 2.75, 3.5, 3.75, 4.5, 6.5, 6.75, 7.5, 12.5):
+                for base in (0.5, 3.0, 40.0, 977.0):
+                    v = base / doc[law](c) * tps
+                    if abs(v - round(v)) < 1e-6 * max(1.0, v):
+                        continue
+                    seg = Segment(baseline_cpu_seconds=base, cpu_scaling=law, storage_read_gb=0)
+                    i = int(seg.get_cpu_time(c) / (1.0 / tps))
+                    ctx.coverage["evaluations"] += 1
+                    ctx.sit("grid_points_fractional_cpus")
+                    if i != math.floor(v):
+                        ctx.violations.append({"what": f"CPU ticks of law {law} with {c} cpus, baseline {base} s at {tps} ticks/s: {i}, the documented formula gives {math.floor(v)}",
+                                               "layer": "C05", "grid_fractional": [law, c, base, tps], "sig": {"clause": "law"}})
+                        return
+
+
 def run(ctx):
     drv = Driver()
     try:
         law_grid(ctx, drv)
+        law_grid_fractional(ctx)
         rng = random.Random(ctx.seed)
         n = 2500 if ctx.quick() else 25000
         for i in range(n):
@@ -295,6 +320,8 @@ def replay(ctx, rep):
     try:
         if "case" in rep:
             one_case(ctx, drv, case_from_json(rep["case"]))
+        elif "grid_fractional" in rep:
+            law_grid_fractional(ctx)
         else:
             law_grid(ctx, drv)
     finally:
